@@ -194,11 +194,21 @@ Section WithHp.
     lra.
   Qed.
 
+  (** over the reals the code's half width IS the half width *)
+  Lemma half_width_R (a b : R) : half_width a b ((a + b) / n2) = (b - a) / n2.
+  Proof. unfold half_width, n2. rsimp. destruct (Rltb ((a + b) / 2 - a) (b - (a + b) / 2)); field. Qed.
+  Lemma center_tol_eq (a b : R) : center_tol hp a b = center_tol_spec hp a b.
+  Proof.
+    unfold center_tol, center_tol_spec. destruct (a =? b)%num; [reflexivity|]. destruct (a <? b)%num.
+    - cbv zeta. rewrite half_width_R. reflexivity.
+    - destruct (advance hp (adv_fuel hp a b) a b) as [b'|]; [|reflexivity]. cbv zeta. rewrite half_width_R. reflexivity.
+  Qed.
+
   Theorem joint_iff_on_arc (a b x c : R) (t : Tol) :
     center_tol hp a b = Some (c, t) ->
     (inside_bounds hp x c t = true <-> on_arc hp a b x).
   Proof.
-    unfold center_tol, on_arc. rsimp. fold P.
+    rewrite center_tol_eq. unfold center_tol_spec, on_arc. rsimp. fold P.
     destruct (Reqb a b) eqn:Eab.
     - apply Reqb_true in Eab. intros [= <- <-]. cbn [inside_bounds]. tauto.
     - apply Reqb_false in Eab. destruct (Rltb a b) eqn:Elt.
@@ -230,7 +240,7 @@ Section WithHp.
 
   Lemma center_tol_total a b : center_tol hp a b <> None.
   Proof.
-    unfold center_tol. destruct (a =? b)%num; [discriminate|].
+    rewrite center_tol_eq. unfold center_tol_spec. destruct (a =? b)%num; [discriminate|].
     destruct (a <? b)%num; [discriminate|].
     pose proof (adv_fuel_enough a b).
     destruct (advance hp (adv_fuel hp a b) a b); [discriminate|contradiction].
@@ -340,7 +350,7 @@ Section Sets.
     intros Hct. destruct t as [|t]; [reflexivity|].
     apply inside_bounds_spec; [exact Hhp|]. exists 0%Z.
     replace (c - c + 0 * (2 * hp)) with 0 by ring. rewrite Rabs_R0.
-    unfold center_tol in Hct. rsimp.
+    rewrite center_tol_eq in Hct. unfold center_tol_spec in Hct. rsimp.
     destruct (Reqb a b); [discriminate|].
     destruct (Rltb a b) eqn:E.
     - apply Rltb_true in E. injection Hct as _ <-. unfold n2; rsimp. lra.
